@@ -972,3 +972,60 @@ func cacheTarPutAtomic(c *Ctx, rule string, pkStore *packages.Package) {
 		c.Fail(rule, "tar-put", token.NoPos, "no write of the tar archive (a call taking ...PutOption in the function that calls storagearchive.Tar) found")
 	}
 }
+
+// c09MarkerLastShared (MARKER-LAST, shared with C15): in the function of the module-data store that writes the
+// completion marker (the atomic PutPath of module.yaml), no other cache write is reachable after the marker write. A
+// side file written after it turns "a failed store never leaves the entry marked complete" into its opposite: the
+// store reports the failure, yet the entry reads as complete and is never repaired.
+func c09MarkerLastShared(c *Ctx, rule string) {
+	c.Rule(rule, "the completion marker of a cached module is the last thing the store writes", 1)
+	p := c.P
+	pkStore := p.Pkg("private/bufpkg/bufmodule/bufmodulestore")
+	if pkStore == nil {
+		c.Fail(rule, "anchor", token.NoPos, "bufmodulestore not found")
+		return
+	}
+	isStorageFn := func(cc *ssa.CallCommon, name string) bool {
+		return calleeIs(staticCalleeObj(cc), "private/pkg/storage", name)
+	}
+	isMarkerPath := func(v ssa.Value) bool {
+		return isGlobalNamed(v, "externalModuleDataFileName") || isConstString(v, "module.yaml")
+	}
+	isWrite := func(cc *ssa.CallCommon) bool {
+		fn := staticCalleeObj(cc)
+		if fn == nil {
+			return false
+		}
+		for _, n := range []string{"Copy", "CopyPath", "CopyReader", "CopyReadObject", "PutPath"} {
+			if calleeIs(fn, "private/pkg/storage", n) {
+				return true
+			}
+		}
+		if cc.IsInvoke() && (fn.Name() == "Put" || fn.Name() == "Delete" || fn.Name() == "DeleteAll") {
+			return strings.HasSuffix(namedPath(cc.Value.Type()), "private/pkg/storage.WriteBucket") || strings.HasSuffix(namedPath(cc.Value.Type()), "private/pkg/storage.ReadWriteBucket")
+		}
+		return false
+	}
+	found := false
+	for _, sf := range p.SSAFuncsOf([]*packages.Package{pkStore}) {
+		for _, call := range callsIn(sf) {
+			if !(isStorageFn(call.Call, "PutPath") && len(call.Call.Args) >= 3 && isMarkerPath(call.Call.Args[2])) {
+				continue
+			}
+			found = true
+			after := 0
+			for _, w := range callsIn(sf) {
+				if w.Instr == call.Instr || !isWrite(w.Call) {
+					continue
+				}
+				if instrReaches(call.Instr, w.Instr) {
+					after++
+				}
+			}
+			c.Ob(rule, ssaFuncName(sf)+"/no-write-after-marker", call.Pos(), after == 0, true, "%d cache write(s) reachable after the marker write", after)
+		}
+	}
+	if !found {
+		c.Fail(rule, "anchor", token.NoPos, "no marker write found in the store")
+	}
+}
